@@ -5,7 +5,7 @@ O == INSTANCE Outcome
 Export == (done /\ result = <<>>) =>
    PrintT(<<"CASE", ToJson([mode |-> mode, endK |-> endK, endI |-> endI, endO |-> endO,
                             endStep |-> IF endK = 0 THEN <<"-", "-">> ELSE Forward[endK],
-                            cleanupO |-> cleanupO, fCd |-> fCd, fEnv |-> fEnv, fTmp |-> fTmp,
+                            cleanupO |-> cleanupO, fCd |-> fCd, fEnv |-> fEnv, fTmp |-> fTmp, fRm |-> fRm,
                             setup |-> SetupKinds, snaps |-> snaps, sds |-> sds,
                             acc |-> {O!Verdict(tcStatus, r[3]) : r \in Acceptable},
                             executed |-> ActExecuted])>>)
